@@ -94,5 +94,25 @@ def run(ctx):
                       'every linear part W satisfies W^T G W = G for the generic %s metric' % fam,
                       'an operation of %s does not leave a generic %s cell invariant' % (v, fam))
         rep.sample('%s (ITA %d %s): ops=%s family=%s content(m,g,2)=%s' % (v, ref['no'], ref['hm'], rec['ops'], fam, content))
+    _parser_lemmas(ctx)
     rep.extra['pairs_composed'] = pairs
     rep.floor('R2', 'operation pairs composed', pairs, 61, where)
+
+
+def _parser_lemmas(ctx):
+    """The property is observed at WyckoffSite::new(..).symmetries, i.e. after parsing: import C17's per-character lemmas."""
+    from ..harness import Report
+    from .C17 import transition_lemmas
+    rep, f = ctx.rep, ctx.facts
+    fo = f.one(self_adt='transform::Transform2', name='from_operations')
+    if not rep.check(fo is not None, 'R5', 'anchor:from_operations', 'transform::Transform2', 'found', 'parser not found', 'anchor-lost'):
+        return
+    sub = type('Ctx', (), {})()
+    sub.__dict__.update(ctx.__dict__)
+    sub.rep = Report('C17', ctx.tier)
+    transition_lemmas(sub, fo)
+    for o in sub.rep.obligations:
+        if o['ok']:
+            rep.ok('R5', 'parser:' + o['instance'], o['construct'], o['why'])
+        else:
+            rep.fail('R5', 'parser:' + o['instance'], o['construct'], o['why'], o['reason'])
